@@ -35,7 +35,8 @@ type VSched struct {
 var VS *VSched
 
 func (m *verifMutex) Lock() {
-	if VS == nil {
+	vs := VS // read once: a goroutine abandoned by an earlier run must never see a later scheduler
+	if vs == nil {
 		if m.holder != 0 {
 			panic("verif: Lock of a held mutex in free-running mode")
 		}
@@ -46,9 +47,10 @@ func (m *verifMutex) Lock() {
 		}
 		return
 	}
-	w := VS.cur
-	VS.parked <- vpark{w: w, m: m}
-	<-VS.resume[w]
+	w := vs.cur
+	ch := vs.resume[w]
+	vs.parked <- vpark{w: w, m: m}
+	<-ch
 	if m.holder != 0 {
 		panic("verif: scheduler granted a held mutex")
 	}
@@ -69,12 +71,14 @@ func (m *verifMutex) Unlock() {
 
 // VerifYield parks the current worker at an always-enabled point (API boundary, callback).
 func VerifYield() {
-	if VS == nil {
+	vs := VS
+	if vs == nil {
 		return
 	}
-	w := VS.cur
-	VS.parked <- vpark{w: w}
-	<-VS.resume[w]
+	w := vs.cur
+	ch := vs.resume[w]
+	vs.parked <- vpark{w: w}
+	<-ch
 }
 
 // VerifStart creates one parked goroutine per worker; nothing runs until Step is called.
